@@ -525,7 +525,11 @@ pub fn run(args: &[String]) -> i32 {
             }
 
             // ---------------- C09: culprit named ---------------------------------------
-            if c.muts.len() == 1 && c.verdict == "reject" && (c.kind == "missing" || c.kind == "missingseq" || c.kind == "invalid") {
+            // (a deleted mandatory field of an OPTIONAL sequence whose other fields remain is reported by the
+            // LL(1) reference as "unexpected <next field>": the message still lacks a mandatory field of a
+            // sequence it contains, so it must be rejected; only the naming of the culprit is not demanded then)
+            if c.muts.len() == 1 && c.verdict == "reject"
+                && (c.kind == "missing" || c.kind == "missingseq" || c.kind == "invalid" || (c.kind == "unexpected" && c.muts[0]["k"] == "del")) {
                 let k = c.muts[0]["k"].as_str().unwrap_or("");
                 let is_missing = c.kind == "missing" || c.kind == "missingseq";
                 // C09 quantifies over messages the library accepts before the mutation: undo the
@@ -543,6 +547,15 @@ pub fn run(args: &[String]) -> i32 {
                         None => false,
                     }
                 };
+                let del_in_optional_sequence = k == "del" && c.kind == "unexpected";
+                if del_in_optional_sequence && base_ok {
+                    let t = props.get_mut("C09").unwrap();
+                    t.evaluated += 1;
+                    if out.accepted {
+                        let sig = format!("C09|MT{}|del|{}|accepted-without-mandatory-field-of-its-sequence", c.mt, c.muts[0]["t"].as_str().unwrap_or(""));
+                        t.violations.push(json!({"sig": sig, "replay": replay}));
+                    }
+                }
                 if ((k == "del" && is_missing) || (k == "bad" && c.kind == "invalid")) && !base_ok {
                     *props.get_mut("C09").unwrap().notes.entry("skipped:base-message-rejected".into()).or_insert(0) += 1;
                 }
